@@ -27,6 +27,7 @@ RULE = ("3 re-create cases (open finding); random histories over 1-2 groups, 4-5
         "add/remove/promote/demote/re-submit by managers, lower members, removed members and outsiders; dependencies = current heads or the heads "
         "after an earlier operation (concurrency); plus a systematic family: every kind of unauthorised author x every action on a fixed group. "
         "non-trivial = at least one accepted non-create operation and at least one rejected operation")
+SEARCH_LIMIT = 600
 NONTRIVIAL_FLOOR = 30
 
 KINDS = {"create": 0, "add": 1, "remove": 2, "promote": 3, "demote": 4, "again": 5}
